@@ -8,6 +8,7 @@ pub mod c05;
 pub mod c06;
 pub mod c09;
 pub mod c10;
+pub mod c11;
 pub mod c12;
 pub mod c14;
 pub mod c15;
@@ -26,6 +27,7 @@ pub fn run(ctx: &Ctx) -> Report {
     "C06" => c06::run(ctx),
     "C09" => c09::run(ctx),
     "C10" => c10::run(ctx),
+    "C11" => c11::run(ctx),
     "C12" => c12::run(ctx),
     "C13" => c03::run_c13(ctx),
     "C14" => c14::run(ctx),
